@@ -15,6 +15,10 @@ TEXT = {
  "C07": T("Window/threshold/outcome sequences with DLQ write failures; exactly-once DLQ routing, cause fields, no ack after failed DLQ write, reference window model.", "3 C07"),
  "C09": T("Plugins answer with hostile shapes chosen by the PRNG at every call (processor: more/zero/nil/mixed results, changed or empty positions, degenerate multi-records, nil errors; destination: empty, surplus, reordered, unknown, duplicate acks; source: duplicate/empty positions, empty batches) plus plugin call errors; a worker process killed by a panic with engine frames is replayed and attributed; hangs are detected as simulated-time idleness with all seams served; conditions: stamps show which processors touched which record.", "3 C09",
           tech="deterministic simulation with hostile-peer fault injection; process-level panic detection + replay; alignment/stamp oracle"),
+ "C10": T("One root failure class per run (transient plugin/store faults, DLQ threshold, DLQ write failure, processor error not absorbed, non-converging processor) plus user stop / server shutdown at any instant incl. the recovery back-off; oracles: back-off delay within bounds measured at park time, retry-window model, fatal => degraded with cause and no restart, stopped stays stopped, no silent stall.", "3 C10"),
+ "C11": T("Histories of start/stop/stop-and-wait/force-stop with overlapping waits against runs that fail and recover; oracles: one open session per connector, wait never returns an earlier run's error (faults carry their scheduler step), no call hangs while the world is served, stored status never contradicts the live run, released connectors/processors (restartability probe), no leaked plugin session.", "3 C11"),
+ "C12": T("Force stop at a PRNG-chosen instant with stalled plugins and concurrent graceful stops; oracles: sessions closed, status degraded with the force-stop cause, no automatic restart, restart resumes from a position not past any unhandled record.", "3 C12"),
+ "C13": T("Live reconfigure requests (ok / failing open / cancelled / concurrent / during stop) on a flowing default-engine pipeline; oracles: each record processed once per node, in order, generations never go back, failed generation never used, open/teardown pairing per generation, running guard kept, calls return; the v2 engine must refuse.", "3 C13"),
  "C08": T("Scripted result kinds per record and stage (pass/modify/filter/error/split/short), chains and fan-out; every destination write must be a leaf the scripted chain produces; acks only via C01's rule.", "3 C08"),
 }
 
@@ -23,7 +27,7 @@ NOT_APPLICABLE = [
  {"property_id": "C20", "reason": "pure function of an error tree; no concurrency, time or I/O for a simulator to control (DESIGN.md section 5)"},
 ]
 # properties claimed in DESIGN.md whose checks are not registered yet are listed here until they are
-PENDING = ["C10", "C11", "C12", "C13", "C14", "C15", "C16", "C17", "C19"]
+PENDING = ["C14", "C15", "C16", "C17", "C19"]
 import sys, os
 sys.path.insert(0, os.path.dirname(__file__))
 from propdefs import PROPS as _P
